@@ -34,7 +34,10 @@ type Step struct {
 	Name int    `json:"n,omitempty"`
 	R    int    `json:"r,omitempty"` // recipient
 }
-type History struct{ Steps []Step }
+type History struct {
+	Steps []Step
+	ABCI  bool `json:"abci,omitempty"` // execute through InitChain / FinalizeBlock(signed txs) / Commit instead of the direct driver
+}
 
 const nActors = 4
 
@@ -394,6 +397,7 @@ func gen(r *lib.Rand, tier, stream string, i int) History {
 			push(Step{K: "block"})
 		}
 	}
+	h.ABCI = stream == "abci"
 	return h
 }
 
@@ -557,8 +561,23 @@ func (w *world) observe(code int, newID int) string {
 
 func exec(h History) lib.Case {
 	var k mtkeeper.Keeper
-	e := lib.NewEnv(lib.EnvOpts{NActors: nActors, Consumers: []interface{}{&k}})
-	e.Blockers = []string{"mt"}
+	var e *lib.Env
+	deliver := func(msg sdk.Msg) lib.Outcome { return e.Deliver(msg) }
+	nextBlock := func() {
+		e.EndBlock()
+		e.BeginBlock(5 * time.Second)
+	}
+	if h.ABCI {
+		ae := lib.NewABCIEnv(nActors, []interface{}{&k})
+		defer ae.Close()
+		e = ae.Env
+		// one signed transaction per message, one block per transaction
+		deliver = func(msg sdk.Msg) lib.Outcome { return ae.DeliverBlock(5*time.Second, msg)[0] }
+		nextBlock = func() { ae.DeliverBlock(5 * time.Second) }
+	} else {
+		e = lib.NewEnv(lib.EnvOpts{NActors: nActors, Consumers: []interface{}{&k}})
+		e.Blockers = []string{"mt"}
+	}
 	w := &world{e: e, k: k, unkD: map[string]int{}, unkM: map[string]int{}}
 	c := lib.Case{Stats: map[string]int{}}
 	var terms []string
@@ -594,8 +613,7 @@ func exec(h History) lib.Case {
 			msg = &mttypes.MsgTransferDenom{Id: denomStr(st.D), Sender: addrStr(e, st.S), Recipient: addrStr(e, st.R)}
 			term = lib.App("TransferDenom", z(st.S), z(st.D), z(st.R))
 		default:
-			e.EndBlock()
-			e.BeginBlock(5 * time.Second)
+			nextBlock()
 			lib.Stat(c.Stats, "op:block")
 			c.Steps = append(c.Steps, "block")
 			terms = append(terms, lib.Pair("Block", w.observe(0, 0)))
@@ -625,7 +643,7 @@ func exec(h History) lib.Case {
 				knownM[m.GetID()] = true
 			}
 		}
-		out := e.Deliver(msg)
+		out := deliver(msg)
 		lib.Stat(c.Stats, "res:"+out.Kind)
 		if amt == 0 && (st.K == "mint" || st.K == "transfer" || st.K == "burn") {
 			lib.Stat(c.Stats, "amount:0:"+out.Kind)
